@@ -174,12 +174,38 @@ package hotspot
 
 // ---- C13: whole-set load. The grouping loop must cope with any element, including nil; the rebuild itself
 // (onRuleUpdate) is under a separate contract.
-//@ func onRuleUpdate(rawResRulesMap) err
-//@   requires[holds-the-update-lock]{C15} wlockcount(updateRuleMux) > 0
+// logging only
+//@ func logRuleUpdate(m)
 //@   assumed
-//@   modifies heap
+//@   panics never
+//@   modifies nothing
+
+// Whole-set load, called by LoadRules with the update lock held: a NEW table is built and swapped in; nothing that
+// existed before — the old table, the lists published in it, the caller's raw lists — is written; the raw map is recorded.
+//@ func onRuleUpdate(rawResRulesMap) err
+//@   props C13, C15
+//@   requires[holds-the-update-lock]{C15} wlockcount(updateRuleMux) > 0
+//@   requires tcMap != nil
+//@   ensures[raw-recorded] err == nil ==> currentRules == rawResRulesMap
+//@   ensures[new-table-swapped-in] err == nil ==> tcMap != nil && fresh(tcMap)
+//@   modifies tcMap, currentRules
+//@   loop 1:
+//@     invariant[valid-map-is-new] validResRulesMap != nil && fresh(validResRulesMap)
+//@     invariant[nothing-else-written] frame()
+//@   loop 2:
+//@     invariant[valid-map-is-new] validResRulesMap != nil && fresh(validResRulesMap)
+//@     invariant[valid-list-is-new] cap(validResRules) == 0 || fresh(base(validResRules))
+//@     invariant[nothing-else-written] frame()
+//@   loop 3:
+//@     invariant[clone-is-new] tcMapClone != nil && fresh(tcMapClone) && (forall r Str :: has(tcMapClone, r) ==> fresh(base(tcMapClone[r])))
+//@     invariant[nothing-else-written] frame()
+//@   loop 4:
+//@     invariant[new-table] m != nil && fresh(m)
+//@     invariant[clone-lists-are-private] forall r Str :: has(tcMapClone, r) ==> fresh(base(tcMapClone[r]))
+//@     invariant[nothing-else-written] frame()
 //@ func LoadRules(rules) (changed, err)
 //@   props C13
+//@   objinv tcMap != nil
 //@   panics never
 //@   sets gHotLoadN = old(gHotLoadN) + 1
 //@   sets gHotLoadArg = rules
